@@ -98,6 +98,7 @@ op_apply::next (scon &sc) const
   state &st = sc.get <state> (m_ll);
   while (true)
     {
+      DWGREP_VERIF_STEP ();
       while (st.m_substate == nullptr)
 	if (auto stk = m_upstream->next (sc))
 	  {
